@@ -563,7 +563,7 @@ func blsCase[K bls.KeyGroup](t *rapid.T, name string, k K) {
 		return
 	}
 	vfy := func(m, sg []byte) bool { return bls.Verify(pk, m, sg) }
-	switch rapid.SampledFrom([]string{"sig", "sig", "msg", "key", "pkbytes", "identity-key", "agg"}).Draw(t, "what") {
+	switch rapid.SampledFrom([]string{"sig", "sig", "msg", "key", "pkbytes", "identity-key", "identity-sig", "agg"}).Draw(t, "what") {
 	case "sig":
 		alt, sig2 := alterSig(t, sig, nil)
 		if bytes.Equal(sig2, sig) {
@@ -603,6 +603,17 @@ func blsCase[K bls.KeyGroup](t *rapid.T, name string, k K) {
 			// named by the property; only count it
 			vlib.Class(sub, "pk-otherlen-decoded")
 		}
+	case "identity-sig":
+		// the point at infinity (compressed and uncompressed form) is no signature of anything
+		idSig := make([]byte, len(sig))
+		idSig[0] = 0xc0
+		expectReject(t, sub, "bls-"+name, "sig-identity", vfy, msg, idSig, ikm)
+		idSigU := make([]byte, 2*len(sig))
+		idSigU[0] = 0x40
+		expectReject(t, sub, "bls-"+name, "sig-identity-uncompressed", vfy, msg, idSigU, ikm)
+		expectReject(t, sub, "bls-"+name, "agg-sig-identity", func(m, sg []byte) bool {
+			return bls.VerifyAggregate([]*bls.PublicKey[K]{pk}, [][]byte{m}, sg)
+		}, msg, idSig, ikm)
 	case "identity-key":
 		// the identity public key with the identity signature must not verify
 		idPk := make([]byte, len(pkb))
